@@ -18,7 +18,7 @@ use smartcore::linear::linear_regression::{LinearRegression, LinearRegressionPar
 use smartcore::linear::logistic_regression::{LogisticRegression, LogisticRegressionParameters};
 use smartcore::linear::ridge_regression::{RidgeRegression, RidgeRegressionParameters, RidgeRegressionSolverName};
 use smartcore::math::distance::mahalanobis::Mahalanobis;
-use smartcore::math::distance::Distance;
+use smartcore::math::distance::{Distance, Distances};
 use smartcore::naive_bayes::bernoulli::{BernoulliNB, BernoulliNBParameters};
 use smartcore::naive_bayes::categorical::{CategoricalNB, CategoricalNBParameters};
 use smartcore::naive_bayes::gaussian::{GaussianNB, GaussianNBParameters};
@@ -27,8 +27,9 @@ use smartcore::neighbors::knn_classifier::{KNNClassifier, KNNClassifierParameter
 use smartcore::neighbors::knn_regressor::{KNNRegressor, KNNRegressorParameters};
 use smartcore::neighbors::KNNWeightFunction;
 use smartcore::preprocessing::categorical::{OneHotEncoder, OneHotEncoderParams};
+use smartcore::svm::svc::{SVCParameters, SVC};
 use smartcore::svm::svr::{SVRParameters, SVR};
-use smartcore::svm::Kernels;
+use smartcore::svm::{Kernel, Kernels};
 use smartcore::tree::decision_tree_classifier::{DecisionTreeClassifier, DecisionTreeClassifierParameters, SplitCriterion};
 use smartcore::tree::decision_tree_regressor::{DecisionTreeRegressor, DecisionTreeRegressorParameters};
 use std::sync::Mutex;
@@ -66,6 +67,25 @@ pub const ESTS: [(&str, usize, u8); 28] = [
     ("cholesky", 1, 3),
 ];
 pub const FIRST_DECOMPOSITION: usize = 22;
+
+/// Extension (round 2): estimators / distance functions on data with N feature columns (`long.rs`);
+/// estimator number = `LONG_BASE` + index. (name, number of configurations, target kind)
+pub const LONG_ESTS: [(&str, usize, u8); 4] = [("svr_linear_long", 1, 0), ("svc_linear_long", 1, 1), ("distances_long", 1, 3), ("knn_long", 4, 1)];
+pub const LONG_BASE: usize = 100;
+pub const E_SVC_LONG: usize = LONG_BASE + 1;
+pub const E_DIST_LONG: usize = LONG_BASE + 2;
+
+pub fn entry(e: usize) -> (&'static str, usize, u8) {
+    if e >= LONG_BASE {
+        LONG_ESTS[e - LONG_BASE]
+    } else {
+        ESTS[e]
+    }
+}
+
+fn is_decomposition(e: usize) -> bool {
+    (FIRST_DECOMPOSITION..ESTS.len()).contains(&e)
+}
 /// estimators whose fit is known not to terminate on a backend on the unchanged tree: their
 /// nalgebra run is first probed in a child process (see `run_case`)
 pub const HANG_PRONE: [usize; 2] = [2, 3];
@@ -277,6 +297,62 @@ pub fn est<B: Bk>(e: usize, cfg: usize, d: &Data, lx: usize) -> Result<Vec<f64>,
             o.extend(&evd.e);
             pm(&mut o, &evd.V);
         }
+        100 => {
+            // linear-kernel SVR: the decision values go through the row-vector dot product of the backend
+            let m = SVR::fit(&x, &y, SVRParameters::<f64, B, _>::default().with_eps(0.1).with_c(1.0)).map_err(s)?;
+            pv(&mut o, &m.predict(&q).map_err(s)?);
+            pv(&mut o, &m.predict(&x).map_err(s)?);
+        }
+        101 => {
+            // linear-kernel SVC; the visiting order of the trainer is owned by the explorer (the
+            // job's deviation bound 0 = the default answer to every draw, the same on all backends)
+            mc_sc::own_rng(mc_sc::RngMode::Deviations);
+            let r = SVC::fit(&x, &y, SVCParameters::<f64, B, _>::default().with_c(1.0).with_epoch(2));
+            mc_sc::release_rng();
+            let m = r.map_err(s)?;
+            pv(&mut o, &m.decision_function(&q).map_err(s)?);
+            pv(&mut o, &m.predict(&q).map_err(s)?);
+            pv(&mut o, &m.decision_function(&x).map_err(s)?);
+        }
+        102 => {
+            // distance functions and kernels on every (data row, query row) pair; the points are
+            // read out of the backend in three ways, the kernels work on the backend's row vectors
+            let (euc, man, ham) = (Distances::euclidian(), Distances::manhattan(), Distances::hamming());
+            let (lin, rbf) = (Kernels::linear(), Kernels::rbf(crate::long::RBF_GAMMA));
+            let poly = Kernels::polynomial(crate::long::POLY.0, crate::long::POLY.1, crate::long::POLY.2);
+            let sig = Kernels::sigmoid(crate::long::SIGMOID.0, crate::long::SIGMOID.1);
+            for i in 0..d.x.r {
+                for k in 0..d.q.r {
+                    let a = x.get_row_as_vec(i);
+                    let b = match (i + k) % 3 {
+                        0 => q.get_row_as_vec(k),
+                        1 => q.get_row(k).to_vec(),
+                        _ => {
+                            let mut buf = vec![0.0; d.q.c];
+                            q.copy_row_as_vec(k, &mut buf);
+                            buf
+                        }
+                    };
+                    o.push(euc.distance(&a, &b));
+                    o.push(man.distance(&a, &b));
+                    for p in 1..=3u16 {
+                        o.push(Distances::minkowski(p).distance(&a, &b));
+                    }
+                    o.push(ham.distance(&a, &b));
+                    let (ra, rb) = (x.get_row(i), q.get_row(k));
+                    o.push(lin.apply(&ra, &rb));
+                    o.push(rbf.apply(&ra, &rb));
+                    o.push(poly.apply(&ra, &rb));
+                    o.push(sig.apply(&ra, &rb));
+                }
+            }
+        }
+        103 => {
+            let (k, alg) = (1 + cfg % 2, if cfg / 2 == 0 { KNNAlgorithmName::LinearSearch } else { KNNAlgorithmName::CoverTree });
+            let m = KNNClassifier::fit(&x, &y, KNNClassifierParameters::default().with_k(k).with_algorithm(alg)).map_err(s)?;
+            pv(&mut o, &m.predict(&q).map_err(s)?);
+            pv(&mut o, &m.predict(&x).map_err(s)?);
+        }
         _ => {
             let ch = x.cholesky().map_err(s)?;
             pm(&mut o, &ch.L());
@@ -332,6 +408,8 @@ pub fn run_ix(ix: usize, e: usize, cfg: usize, d: &Data, lx: usize) -> EOut {
         1 => mc::guard(|| est::<ndarray::Array2<f64>>(e, cfg, d, lx)),
         _ => mc::guard(|| est::<nalgebra::DMatrix<f64>>(e, cfg, d, lx)),
     };
+    // the RNG goes back to the library also when the SVC fit panicked
+    mc_sc::release_rng();
     match r {
         Ok(Ok(v)) => EOut::Vals(v),
         Ok(Err(m)) => EOut::Failed(m),
@@ -530,7 +608,7 @@ static HUNG: Mutex<Vec<(String, usize, usize, u32)>> = Mutex::new(Vec::new());
 
 /// One estimator case on the three backends, judged against the built-in backend.
 pub fn run_case(job: &str, e: usize, cfg: usize, d: &Data, lx: usize) {
-    let name = ESTS[e].0;
+    let name = entry(e).0;
     let mut outs: Vec<EOut> = Vec::new();
     for ix in 0..3 {
         // a binding's fit that may not terminate runs in a child process under a deadline. After
@@ -572,10 +650,13 @@ pub fn run_case(job: &str, e: usize, cfg: usize, d: &Data, lx: usize) {
     mc::outcome(h);
     if let EOut::Vals(v) = &outs[0] {
         mc::nontrivial();
-        mc::count(if e >= FIRST_DECOMPOSITION { "decomposition_cases_with_values" } else { "estimator_cases_with_values" });
+        mc::count(if is_decomposition(e) { "decomposition_cases_with_values" } else { "estimator_cases_with_values" });
         mc::count(name);
         if outs.iter().all(|o| matches!(o, EOut::Vals(_))) {
             mc::count("cases_with_values_from_all_three_backends");
+            if e >= LONG_BASE {
+                mc::count("long_estimator_cases_with_values_from_all_three_backends");
+            }
         }
         if v.iter().any(|x| !x.is_finite()) {
             mc::count("estimator_cases_with_nonfinite_values");
@@ -585,6 +666,32 @@ pub fn run_case(job: &str, e: usize, cfg: usize, d: &Data, lx: usize) {
     }
     if lx > 0 {
         mc::count("estimator_cases_with_transposed_layout_input");
+    }
+    if e == E_DIST_LONG {
+        // definition-level oracle: the textbook value of every distance / kernel (binds every backend)
+        let mut want = Vec::new();
+        for i in 0..d.x.r {
+            for k in 0..d.q.r {
+                want.extend(crate::long::pair_model(&d.x.row(i), &d.q.row(k)));
+            }
+        }
+        const WHAT: [&str; 10] = ["euclidian", "manhattan", "minkowski", "minkowski", "minkowski", "hamming", "linear_kernel", "rbf_kernel", "polynomial_kernel", "sigmoid_kernel"];
+        for ix in 0..3 {
+            if let EOut::Vals(got) = &outs[ix] {
+                let bad = (0..want.len().max(got.len())).find(|p| *p >= got.len() || *p >= want.len() || !close_tol(got[*p], want[*p], 1e-10));
+                match bad {
+                    None => mc::count("long_distance_cases_equal_to_the_textbook_value"),
+                    Some(p) => {
+                        let (pair, f) = (p / WHAT.len(), p % WHAT.len());
+                        let (i, k) = (pair / d.q.r, pair % d.q.r);
+                        mc::violation(
+                            format!("{}.{}:long-rows-differ-from-definition", NAMES[ix], WHAT[f]),
+                            format!("{} of data row {} {:?} and query row {} {:?} ({} columns): {} gives {:?}; textbook value {:?}", WHAT[f], i, d.x.row(i.min(d.x.r - 1)), k, d.q.row(k), d.x.c, NAMES[ix], got[..].get(p), want[..].get(p)),
+                        );
+                    }
+                }
+            }
+        }
     }
     let tol = tol_of(e);
     let mask = match &outs[0] {
